@@ -1025,7 +1025,7 @@ func (t *Term) ref() string {
 	case OpFalse:
 		return "false"
 	case OpVar:
-		return smtName(t.Name)
+		return smtName("v!" + t.Name)
 	}
 	return fmt.Sprintf("t%d", t.ID)
 }
